@@ -296,6 +296,9 @@ def run(ctx):
         shards.append({'kind': 'argv', 'shard': i, 'mod': 4})
     results = common.run_shards('checks.c09', shards, timeout=3400)
     common.merge_shards(ctx, results)
+    # the same rule as an oracle over every verdict of real parallel runs
+    from checks import c09_real
+    c09_real.run(ctx)
     ctx.rule = (
         'main command: all 32 settings of --ignore-output/--ignore-out/'
         '--ignore-err/--match-out/--match-err x all 32 candidate outcomes '
@@ -305,7 +308,11 @@ def run(ctx):
            'main outcomes varied one at a time' if ctx.tier == 'quick' else
            'all 256 option pairs x 32 x 32 outcomes, exhaustive') +
         '; --unchecked with every outcome; argv/extension on end-to-end '
-        'runs (7 input names x 3 argument lists x 3 configurations); '
+        'runs (7 input names x 3 argument lists x 3 configurations); real '
+        'parallel runs (-j 2..8, all strategies, slow-starting command, '
+        'injected delays): every verdict a worker returns is compared with '
+        'the rule applied to the scripted command\'s answer for that very '
+        'candidate; '
         'distinct non-trivial = distinct (options, outcome) rows')
     ctx.extra['main_product_exhaustive'] = True
     ctx.exhaustive = ctx.tier == 'thorough'
